@@ -227,6 +227,12 @@ Proof.
   apply (sim_push W D D' a o); auto. intros b Hb. inversion Hb.
 Qed.
 
+Lemma sim_reset W D D' a : sim W D D' -> is_Some (objs D !! a) -> sim W (reset_obj D a) (reset_obj D' a).
+Proof.
+  intros Hsim [o E]. unfold reset_obj. rewrite E, (sim_obj _ _ _ _ _ Hsim E).
+  apply (sim_push W D D' a o); auto. intros b Hb. inversion Hb.
+Qed.
+
 Lemma add_bal_keeps W D a b amt : is_Some (objs D !! a) -> is_Some (objs (add_bal W D b amt) !! a).
 Proof.
   intros H. unfold add_bal.
@@ -285,12 +291,12 @@ Proof.
     rewrite bool_decide_eq_true_2 in E by done. cbn in E. by rewrite lookup_insert in E.
 Qed.
 
-Lemma do_call_as_get_or_new order W D caller target value run :
-  do_call order (W, D) caller target value run =
+Lemma do_call_as_get_or_new force order W D caller target value run :
+  do_call_gen force order (W, D) caller target value run =
   if negb (value =? 0) && (cbal (load W D caller) caller <? value) then ((W, load W D caller), Fail) else
   let D0 := if value =? 0 then D else load W D caller in
   let snap := snapshot D0 in
-  if negb false && match objs (load W D0 target) !! target with None => true | Some _ => false end && (value =? 0) && negb (is_precompile target)
+  if negb force && match objs (load W D0 target) !! target with None => true | Some _ => false end && (value =? 0) && negb (is_precompile target)
   then ((W, D0), Ok) else
   let D3 := add_bal W (sub_bal W (get_or_new W D0 target) caller value) target value in
   let '((W4, D4), oc) := run (W, D3) in
@@ -310,10 +316,10 @@ Proof.
   exfalso. destruct (load_loads W D t Hin) as [x Hx]. congruence.
 Qed.
 
-Lemma do_call_lock order W D D' caller target value run :
+Lemma do_call_gen_lock force order W D D' caller target value run :
   sim W D D' ->
-  (forall D1 D1', sim W D1 D1' -> lock W (run (W, D1)) (run (W, D1'))) ->
-  lock W (do_call order (W, D) caller target value run) (do_call order (W, D') caller target value run).
+  (forall D1 D1', sim W D1 D1' -> is_Some (objs D1 !! target) -> lock W (run (W, D1)) (run (W, D1'))) ->
+  lock W (do_call_gen force order (W, D) caller target value run) (do_call_gen force order (W, D') caller target value run).
 Proof.
   intros Hsim Hrun. rewrite !do_call_as_get_or_new. rewrite (sim_cbal_loaded W D D' caller Hsim).
   destruct (negb (value =? 0) && (cbal (load W D' caller) caller <? value)).
@@ -326,17 +332,33 @@ Proof.
   assert (Hsnap : snapshot D0 = snapshot D0').
   { unfold snapshot. destruct H0 as ((Hj & _) & _). by rewrite Hj. }
   rewrite Hsnap. rewrite (sim_absent_after_load W D0 D0' target H0).
-  destruct (negb false && match objs (load W D0' target) !! target with None => true | Some _ => false end && (value =? 0) && negb (is_precompile target)).
+  destruct (negb force && match objs (load W D0' target) !! target with None => true | Some _ => false end && (value =? 0) && negb (is_precompile target)).
   { split; [done|]. split; [done|]. split; [done|]. exact H0. }
-  destruct (sim_get_or_new W D0 D0' target H0) as [H2 _].
+  destruct (sim_get_or_new W D0 D0' target H0) as [H2 (ot & Hot & _)].
   pose proof (sim_add_bal W _ _ target value (sim_add_bal W _ _ caller (- value) H2)) as H3.
-  specialize (Hrun _ _ H3). unfold sub_bal.
+  assert (Hpres : is_Some (objs (add_bal W (add_bal W (get_or_new W D0 target) caller (- value)) target value) !! target)).
+  { apply add_bal_keeps, add_bal_keeps. rewrite Hot. eauto. }
+  specialize (Hrun _ _ H3 Hpres). unfold sub_bal.
   destruct (run (W, add_bal W (add_bal W (get_or_new W D0 target) caller (- value)) target value)) as [[W4 D4] oc].
   destruct (run (W, add_bal W (add_bal W (get_or_new W D0' target) caller (- value)) target value)) as [[W4' D4'] oc'].
   destruct Hrun as (Hoc & HW & HW' & Hs4). cbn in Hoc, HW, HW', Hs4. subst oc' W4 W4'.
   destruct oc; unfold lock; cbn [fst snd].
   - split; [done|]. split; [done|]. split; [done|]. exact Hs4.
   - split; [done|]. split; [done|]. split; [done|]. by apply sim_revert.
+Qed.
+
+Lemma do_call_lock order W D D' caller target value run :
+  sim W D D' ->
+  (forall D1 D1', sim W D1 D1' -> lock W (run (W, D1)) (run (W, D1'))) ->
+  lock W (do_call order (W, D) caller target value run) (do_call order (W, D') caller target value run).
+Proof. intros Hsim Hrun. apply do_call_gen_lock; [done|]. intros D1 D1' Hs _. by apply Hrun. Qed.
+
+Lemma sim_read_loaded W D D' a k : sim W D D' -> read_state W (load W D a) a k = read_state W (load W D' a) a k.
+Proof.
+  intros Hsim. pose proof (sim_load W D D' a Hsim) as Hl. unfold read_state.
+  destruct (objs (load W D a) !! a) as [o|] eqn:E; [by rewrite (sim_obj _ _ _ _ _ Hl E)|].
+  destruct Hl as ((_ & _ & _ & Ho) & _). destruct (Ho a) as [Heq|(_ & Hin & _)]; [by rewrite <- Heq, E|].
+  exfalso. destruct (load_loads W D a Hin) as [x Hx]. congruence.
 Qed.
 
 Lemma after_call_lock W self catch rec r r' : lock W r r' -> lock W (after_call self catch rec r) (after_call self catch rec r').
@@ -360,17 +382,29 @@ Qed.
 
 Ltac mklock := unfold lock; cbn [fst snd]; split; [reflexivity|]; split; [reflexivity|]; split; [reflexivity|].
 
+Lemma forall_list_lock order o W body :
+  Forall (fun i => pure i = true -> forall order o self W D D', sim W D D' ->
+            lock W (exec_instr order o self i (W, D)) (exec_instr order o self i (W, D'))) body ->
+  forallb pure body = true ->
+  forall t D D', sim W D D' -> lock W (exec_list order o t body (W, D)) (exec_list order o t body (W, D')).
+Proof.
+  induction body as [|x body IHb]; intros IH Hp t D D' Hsim; cbn [exec_list]; [mklock; exact Hsim|].
+  cbn [forallb] in Hp. apply andb_prop in Hp as [Hpx Hpb]. inversion IH as [|? ? IHx IHrest]; subst.
+  apply (lock_seq W (exec_instr order o t x (W, D)) (exec_instr order o t x (W, D'))).
+  - by apply IHx.
+  - intros D2 D2' Hs2. by apply IHb.
+Qed.
+
 Theorem pure_instr_lock : forall i, pure i = true ->
   forall order o self W D D', sim W D D' ->
     lock W (exec_instr order o self i (W, D)) (exec_instr order o self i (W, D')).
 Proof.
-  induction i as [k v| | |a|b|t v c r body IH|ad v c r sc body|p v c r] using instr_ind'; intros Hp order o self W D D' Hsim;
-    cbn [exec_instr].
-  - mklock. by apply sim_set_state.
-  - mklock. by apply sim_add_log.
-  - mklock. exact Hsim.
-  - mklock. by apply sim_load.
-  - pose proof (sim_load W D D' self Hsim) as Hl0.
+  induction i as [k v| | |a|b|t v c r body IH|ad v c r sc body IH|p v c r] using instr_ind'; intros Hp order o self W D D' Hsim.
+  - cbn [exec_instr]. mklock. by apply sim_set_state.
+  - cbn [exec_instr]. mklock. by apply sim_add_log.
+  - cbn [exec_instr]. mklock. exact Hsim.
+  - cbn [exec_instr]. mklock. by apply sim_load.
+  - cbn [exec_instr]. pose proof (sim_load W D D' self Hsim) as Hl0.
     destruct (objs (load W D self) !! self) as [os|] eqn:E.
     + rewrite (sim_obj _ _ _ _ _ Hl0 E). mklock.
       pose proof (sim_add_bal W _ _ b (obal os) Hl0) as H1.
@@ -380,7 +414,7 @@ Proof.
       { destruct Hl0 as ((_ & _ & _ & Ho) & _). destruct (Ho self) as [Heq|(_ & Hin & _)]; [congruence|].
         exfalso. destruct (load_loads W D self Hin) as [x Hx]. congruence. }
       rewrite E'. mklock. exact Hl0.
-  - cbn [pure] in Hp. apply after_call_lock. apply do_call_lock; [done|].
+  - cbn [exec_instr]. cbn [pure] in Hp. apply after_call_lock. apply do_call_lock; [done|].
     intros D1 D1' Hs1. destruct (N.leb 2 t && N.leb t 4); [|mklock; exact Hs1].
     clear Hsim D D'. revert D1 D1' Hs1.
     induction body as [|x body IHb]; intros D1 D1' Hs1; [mklock; exact Hs1|].
@@ -389,7 +423,23 @@ Proof.
     apply (lock_seq W (exec_instr order o t x (W, D1)) (exec_instr order o t x (W, D1'))).
     + by apply IHx.
     + intros D2 D2' Hs2. by apply IHb.
-  - discriminate.
+  - (* CREATE *)
+    cbn [pure] in Hp. rewrite !exec_create_eq.
+    pose proof (sim_load W D D' self Hsim) as Hl0.
+    rewrite (sim_cbal_loaded W D D' self Hsim).
+    destruct (negb (v =? 0) && (cbal (load W D' self) self <? v)).
+    { apply after_call_lock. mklock. exact Hl0. }
+    cbv zeta. rewrite (sim_read_loaded W D D' self NONCE_SLOT Hsim).
+    pose proof (sim_set_state W _ _ self NONCE_SLOT (read_state W (load W D' self) self NONCE_SLOT + 1) Hl0) as Hs1.
+    destruct (nth_error ad (Z.to_nat (read_state W (load W D' self) self NONCE_SLOT))) as [t|].
+    2:{ apply after_call_lock. mklock. exact Hs1. }
+    apply after_call_lock. apply do_call_gen_lock; [exact Hs1|].
+    intros D2 D2' Hs2 Hpres. rewrite !create_run_eq.
+    pose proof (forall_list_lock order o W body IH Hp t _ _ (sim_reset W D2 D2' t Hs2 Hpres)) as Hb.
+    destruct (exec_list order o t body (W, reset_obj D2 t)) as [[Wb Db] ocb].
+    destruct (exec_list order o t body (W, reset_obj D2' t)) as [[Wb' Db'] ocb'].
+    destruct Hb as (Hoc & HW & HW' & Hsb). cbn in Hoc, HW, HW', Hsb. subst ocb' Wb Wb'.
+    destruct ocb; cbn [fst snd]; mklock; [|exact Hsb]. destruct sc; [by apply sim_set_state|exact Hsb].
   - discriminate.
 Qed.
 
